@@ -321,14 +321,19 @@ func clientProbes() []vk.Probe {
 		if honest == nil {
 			return false, ""
 		}
-		// the honest reply with the column count of the encoded row set to 0x00200003 (2M columns in a 40-byte value)
+		// the honest reply with the column count of the encoded row set to 0x00040003 (256K columns in a 40-byte value);
+		// the pinned repro uses a small count (map creation is slow) and a proportionally small bound: 4 MiB for 40 bytes
 		m := proto.Clone(honest).(*schema.VerifiableSQLEntry)
-		m.SqlEntry.Value[1] = 0x20
+		m.SqlEntry.Value[1] = 0x04
+		// a single execution: once the count is validated the call lasts microseconds, too short for background allocation to matter
 		f.sw.set(icReplay, op.method, m)
-		r := runStateful(func() { op.call(context.Background(), f) })
+		r := run(func() { op.call(context.Background(), f) })
 		f.sw.set(icPass, "", nil)
-		if v := r.verdict("VerifyRow over a reply whose row value announces 2M columns", len(m.SqlEntry.Value)); v != "" {
+		if v := r.verdict("VerifyRow over a reply whose row value announces 256K columns", len(m.SqlEntry.Value)); v != "" {
 			return true, v
+		}
+		if r.alloc > 4<<20 {
+			return true, fmt.Sprintf("VerifyRow over a reply whose 40-byte row value announces 256K columns allocated %d MiB", r.alloc>>20)
 		}
 		return false, ""
 	}}, {ID: kfF13, Present: func() (bool, string) {
